@@ -111,24 +111,28 @@ class GroundedEffect:
             ):
                 continue
 
-            for state_predicate in next_state_predicates[
-                positive_predicate.lifted_untyped_representation
-            ]:
-                if (
-                    state_predicate.untyped_representation
-                    == positive_predicate.untyped_representation
-                ):
-                    next_state_predicates[
-                        positive_predicate.lifted_untyped_representation
-                    ].discard(state_predicate)
-                    break
+            # a fact is identified by its untyped form: remove every copy of it, whatever types it carries.
+            next_state_predicates[positive_predicate.lifted_untyped_representation] = {
+                state_predicate
+                for state_predicate in next_state_predicates[
+                    positive_predicate.lifted_untyped_representation
+                ]
+                if state_predicate.untyped_representation
+                != positive_predicate.untyped_representation
+            }
 
         for predicate in add_effects:
             lifted_predicate_str = predicate.lifted_untyped_representation
             next_state_grounded_predicates = next_state_predicates.get(
                 lifted_predicate_str, set()
             )
-            next_state_grounded_predicates.add(predicate)
+            if all(
+                state_predicate.untyped_representation
+                != predicate.untyped_representation
+                for state_predicate in next_state_grounded_predicates
+            ):
+                next_state_grounded_predicates.add(predicate)
+
             next_state_predicates[lifted_predicate_str] = next_state_grounded_predicates
 
     @staticmethod
